@@ -20,7 +20,9 @@ MINIMUM = {'R20.1': 6, 'R20.2': 3, 'R20.3': 8, 'R20.4': 4, 'R20.5': 2}
 
 # rules of sibling properties that are necessary conditions of this one too
 # (evaluated by the sibling module on the same graphs, reported under this property)
-ALSO = {'C12': {'R12.2': 'trash-rm matches the very path trash-list prints'}}
+ALSO = {'C12': {'R12.2': 'trash-rm matches the very path trash-list prints'},
+ 'C19': {'R19.4': 'the date of one entry is not taken for the next (all readers parse per '
+                  'entry)'}}
 
 def dir_kind(D):
     kinds = set()
